@@ -172,6 +172,7 @@ func init() {
 		run: func(c *Ctx, r *Report) {
 			ruleMatcherGuard(c, r, "", false)
 			ruleDecoderBounds(c, r, "")
+			ruleRingModulus(c, r, "", "enc")
 			ruleXZWriter(c, r, "")
 			t := getChunkTables(c, r, "")
 			ruleWriter2(c, r, t, "")
